@@ -92,7 +92,7 @@ def run(ctx):
                        'system level: generated programs are valid PTG (each consumed version has one producer)']
     rng = random.Random(ctx.seed * 7919 + 7)
     shapes = list(QUICK_SHAPES)
-    batches = 260
+    batches = 220
     if thorough:
         shapes += random_shapes(rng, 96)
         batches = 900
@@ -111,7 +111,7 @@ def run(ctx):
         i, flavour, sh, cmd = j
         cmd = [str(c) for c in cmd]
         what = 'direct %s %s' % (flavour, ' '.join(cmd[1:]))
-        r, st = ctx.run_with_stall_rule(lambda: ctx.run(cmd, timeout=3600 if thorough else 600, stall_s=120, tag='d%d' % i), what,
+        r, st = ctx.run_with_stall_rule(lambda: ctx.run(cmd, timeout=3600 if thorough else 600, stall_s=300, tag='d%d' % i), what,
                                         feature=None)
         return j, r, st
 
@@ -135,7 +135,7 @@ def run(ctx):
         ctx.max_cov('direct_max_releases_per_instance', s['max_releases'])
         ctx.max_cov('direct_max_threads', s['threads'])
         modes.add('%s/%s' % (s['mode'], s['find']))
-        for c in r.of('case')[:1]:
+        for c in (r.of('case')[:1] if len(ctx.samples) < 4 else []):
             ctx.sample({'level': 'direct', 'flavour': flavour, 'case': c['desc'], 'winner_tid': c['winner_tid'],
                         'winner_arrival_rank': c['winner_arrival_rank'], 'releases': c['releases']})
     ctx.cov['direct_modes_x_backends'] = sorted(modes)
@@ -197,6 +197,13 @@ SYS_DRV = r"""/* generated driver: wide fan-in PTG program, monitor of "each ins
 #include "kit.h"
 #include <mpi.h>
 #include <stdarg.h>
+
+/* start-up ticker: MPI_Init + parsec_init (hwloc discovery, thread creation) can take minutes on a loaded box and are not
+ * the code under test; keep the driver's stall detector quiet until the monitored phase begins (bounded: 15 minutes) */
+static volatile int vf_init_phase = 0; static pthread_t vf_init_thread;
+static void *vf_init_tick(void *a) { (void)a; for (int k = 0; vf_init_phase && k < 9000; k++) { usleep(100000); VF_TICK(); } return NULL; }
+static void vf_init_begin(void) { vf_heartbeat_start(); vf_init_phase = 1; pthread_create(&vf_init_thread, NULL, vf_init_tick, NULL); }
+static void vf_init_end(void) { vf_init_phase = 0; pthread_join(vf_init_thread, NULL); }
 #define MAXC 1024
 #define MAXQ 12
 #define MAXG 64
@@ -253,6 +260,7 @@ static parsec_data_t *data_of_key(parsec_data_collection_t *d, parsec_data_key_t
 static parsec_data_t *data_of(parsec_data_collection_t *d, ...) { va_list ap; va_start(ap, d); int k = va_arg(ap, int); va_end(ap); return data_of_key(d, (parsec_data_key_t)k); }
 int main(int argc, char **argv)
 {
+    vf_init_begin();
     int prov; MPI_Init_thread(&argc, &argv, MPI_THREAD_SERIALIZED, &prov);
     NC = (int)vf_arg_ll(argc, argv, "--nc", 64); NG = (int)vf_arg_ll(argc, argv, "--ng", 8); J0 = (int)vf_arg_ll(argc, argv, "--j0", 10);
     W = (int)vf_arg_ll(argc, argv, "--w", 16); int cores = (int)vf_arg_ll(argc, argv, "--cores", 16);
@@ -261,10 +269,10 @@ int main(int argc, char **argv)
     int pargc = 1; char *pv[2] = {argv[0], NULL}; char **pargv = pv;
     parsec_context_t *ctx = parsec_init(cores, &pargc, &pargv);
     if (!ctx) return 2;
+    vf_init_end();
     parsec_data_collection_t D; parsec_data_collection_init(&D, 1, 0); D.default_dtt = parsec_datatype_int64_t;
     D.rank_of = rank_of; D.rank_of_key = rank_of_key; D.vpid_of = vpid_of; D.vpid_of_key = vpid_of_key; D.data_key = data_key; D.data_of = data_of; D.data_of_key = data_of_key;
     for (int k = 0; k < MAXC; k++) store[k] = 7000 + k;
-    vf_heartbeat_start();
     parsec_c07prog_taskpool_t *tp = parsec_c07prog_new(NC, NG, J0, W, NR, &D);
     parsec_arena_datatype_set_type(&tp->arenas_datatypes[PARSEC_c07prog_DEFAULT_ADT_IDX], sizeof(int64_t), PARSEC_ARENA_ALIGNMENT_SSE, parsec_datatype_int64_t);
     parsec_context_add_taskpool(ctx, (parsec_taskpool_t *)tp); parsec_context_start(ctx); parsec_context_wait(ctx);
@@ -330,7 +338,7 @@ def sys_run(ctx):
     rng = random.Random(ctx.seed * 31 + 5)
     jobs = []
     n = 0
-    reps = 12 if thorough else 1
+    reps = 6 if thorough else 1
     for i, v in enumerate(SYS_VARIANTS):
         flavour = 'asan' if i % 2 == 0 else 'rel'
         exe, mode = sys_build(ctx, flavour, v)
@@ -353,7 +361,7 @@ def sys_run(ctx):
         n, flavour, v, mode, sched, env, cmd = j
         cmd = [str(c) for c in cmd]
         what = 'system %s K=%d gather=%d count_deps=%d -M %s sched=%s %s %s' % (flavour, v[0], v[1], v[2], v[3], sched, env.get('PARSEC_VERIF_YIELD', ''), ' '.join(cmd[1:]))
-        r, st = ctx.run_with_stall_rule(lambda: ctx.run(cmd, env=env, timeout=900, stall_s=60, tag='y%d' % n), what)
+        r, st = ctx.run_with_stall_rule(lambda: ctx.run(cmd, env=env, timeout=1800, stall_s=300, tag='y%d' % n), what)
         return j, r, st
 
     res = ctx.pmap(one, jobs, jobs=2)
